@@ -1,0 +1,23 @@
+//go:build verif
+
+package keys
+
+import (
+	"crypto/ecdsa"
+	"math/big"
+)
+
+// SimSigner, when set by a simulation harness, replaces the randomised ECDSA
+// signer used by Sign. It must return a signature that Verify accepts.
+var SimSigner func(priv *ecdsa.PrivateKey, hash []byte) (r, s *big.Int, err error)
+
+func simSign(priv *ecdsa.PrivateKey, data []byte) (r, s *big.Int, ok bool) {
+	if SimSigner == nil {
+		return nil, nil, false
+	}
+	r, s, err := SimSigner(priv, data)
+	if err != nil {
+		return nil, nil, false
+	}
+	return r, s, true
+}
